@@ -13,7 +13,7 @@
 
    All arithmetic leaves come from Gen/Polarity.v.  No proofs here. *)
 From Coq Require Import ZArith QArith Qabs Qminmax Bool List.
-From Aegean Require Import Lib.QBase Lib.Graph Gen.Polarity Model.IslandModel.
+From Aegean Require Import Lib.QBase Lib.Ext Lib.Graph Gen.Polarity Model.IslandModel.
 Import ListNotations.
 Open Scope Z_scope.
 
@@ -192,3 +192,21 @@ Inductive interleave {A} : list A -> list A -> list A -> Prop :=
 Definition finite_nonzero (p : option Q) : Prop := exists q, p = Some q /\ ~ (q == 0)%Q.
 Definition is_pos (p : option Q) : Prop := exists q, p = Some q /\ (0 < q)%Q.
 Definition is_neg (p : option Q) : Prop := exists q, p = Some q /\ (q < 0)%Q.
+
+(* ---------------------------------------------------------------------------------------------
+   curvature map of _fit_island for one pixel: w = the pixels of its filter window (centre included,
+   in any order), c = the pixel itself; maxf / minf = scipy.ndimage.maximum_filter / minimum_filter on
+   one window (arguments: with NaN in a window their result is an implementation detail of scipy). *)
+Definition curve_at (pf tf : fill) (pv tv : Z) (tlast : bool) (maxf minf : list ev -> ev)
+           (w : list ev) (c : ev) : Z :=
+  let p := ev_eqb (maxf (map (apply_fill pf) w)) (apply_fill pf c) in
+  let t := ev_eqb (minf (map (apply_fill tf) w)) (apply_fill tf c) in
+  if tlast then (if t then tv else if p then pv else 0)
+  else (if p then pv else if t then tv else 0).
+(* a pixel that is at the same time the maximum and the minimum of its window (flat patch) *)
+Definition plateau_at (pf tf : fill) (maxf minf : list ev -> ev) (w : list ev) (c : ev) : bool :=
+  ev_eqb (maxf (map (apply_fill pf) w)) (apply_fill pf c) &&
+  ev_eqb (minf (map (apply_fill tf) w)) (apply_fill tf c).
+Definition curve_gen := curve_at curv_peak_fill curv_trough_fill curv_peak_value curv_trough_value
+                                 curv_trough_written_last.
+Definition plateau_gen := plateau_at curv_peak_fill curv_trough_fill.
